@@ -372,6 +372,8 @@ def run(ctx):
         pre, post = (NEST[lang][cidx - 1] if cidx else (b'', b''))
         if quick and depth >= 10000 and rnd.random() < 0.5:
             continue
+        if quick and lastop == 'inject' and len(SEEDS[seed - 1][1]) > 12 and rnd.random() < 0.75:
+            continue        # the long path document: its token and truncation mutants matter; a quarter of the byte injections
         full = (not quick and ops <= 1) or (quick and ops == 0)
         if not quick and ops == 2 and rnd.random() < 0.7:
             continue
@@ -475,24 +477,24 @@ def run(ctx):
         ctx.coverage['rejections_not_rerun'] = len(bad) - 1000
     pending = list(bad[:1000])
     final = {}
-    for attempt in range(3):
-        if not pending:
-            break
-        sub = [dict(cs.cases[pos], id=k) for k, pos in enumerate(pending)]
-        ev1 = run_shard(ctx, exe, sub, 'rerun-%d' % attempt)
+    if pending:
+        # one fresh process: every rejected call once more; calls rejected only for the budget two more times (three fresh runs in all)
+        plan = []
+        for pos in pending:
+            plan += [pos] * (3 if why[pos] == ['WithinBudget'] else 1)
+        sub = [dict(cs.cases[pos], id=k) for k, pos in enumerate(plan)]
+        ev1 = run_shard(ctx, exe, sub, 'rerun')
         a1, r1 = vlib.tlc_trace(ctx, 'C10Trace', 'C10Trace.cfg', [to_line(e) for e in ev1])
         w1 = collections.defaultdict(list)
         for k, w in r1:
             w1[k].append(w)
-        nxt = []
-        for k, pos in enumerate(pending):
-            if k not in w1:
-                final.pop(pos, None)          # a fresh run satisfies the relation: not reproduced
-                continue
-            final[pos] = (ev1[k], w1[k])
-            if w1[k] == ['WithinBudget']:
-                nxt.append(pos)               # a budget rejection counts only if three fresh runs in a row all exceed the budget
-        pending = nxt
+        runs = collections.defaultdict(list)
+        for k, pos in enumerate(plan):
+            runs[pos].append(k)
+        for pos, ks in runs.items():
+            if all(k in w1 for k in ks):          # rejected in every fresh run
+                worst = min(ks, key=lambda k: ev1[k]['cpu_us'])
+                final[pos] = (ev1[worst], sorted(set(w for k in ks for w in w1[k])))
     for pos in sorted(final):
         e1, ws = final[pos]
         c = cs.cases[pos]
